@@ -462,12 +462,10 @@ func (w *worker[T, JobType]) goListenToContext() {
 func (w *worker[T, JobType]) goEventLoop() {
 	go func(signal <-chan struct{}) {
 		for range signal {
-			for w.IsRunning() && w.curProcessing.Load() < w.concurrency.Load() && w.queues.Len() > 0 {
-				// Reserve the slot first, then look at the status again: Pause/Stop store
-				// the new status and then wait for curProcessing to drop to zero, so either
-				// they see this reservation or we see their status change.
-				w.curProcessing.Add(1)
-
+			for w.IsRunning() && w.queues.Len() > 0 && w.reserveSlot() {
+				// The slot is reserved first, then the status is looked at again: Pause/Stop
+				// store the new status and then wait for curProcessing to drop to zero, so
+				// either they see this reservation or we see their status change.
 				if !w.IsRunning() {
 					w.releaseWaiters(w.curProcessing.Add(^uint32(0)))
 					break
@@ -479,6 +477,23 @@ func (w *worker[T, JobType]) goEventLoop() {
 			}
 		}
 	}(w.eventLoopSignal)
+}
+
+// reserveSlot takes one of the concurrency slots if there is a free one.
+// Check and increment are a single compare-and-swap, so the limit also holds while
+// the event loop of a previous run is still draining its last signal after a Restart.
+func (w *worker[T, JobType]) reserveSlot() bool {
+	for {
+		cur := w.curProcessing.Load()
+
+		if cur >= w.concurrency.Load() {
+			return false
+		}
+
+		if w.curProcessing.CompareAndSwap(cur, cur+1) {
+			return true
+		}
+	}
 }
 
 func (w *worker[T, JobType]) stopTickers() {
